@@ -167,5 +167,5 @@ HeldTxsBelong == x.have \subseteq Node!Range(x.txs)
 PrimaryOK == x.primary = (x.h - x.v) % x.n
 
 \* behaviours for the script driver (spec -> code): printed by `tlc -simulate` at the depth bound
-EmitBehaviour == (Emit /\ Len(hist.evs) = EmitLen) => PrintT(<<"BEHAVIOUR", ToJson(hist.evs)>>)
+EmitBehaviour == (Emit /\ Len(hist.evs) \in {EmitLen, EmitLen \div 2, 6}) => PrintT(<<"BEHAVIOUR", ToJson(hist.evs)>>)
 =============================================================================
